@@ -10,8 +10,11 @@ with the span evaluated by an OWN evaluator:
   (`get_start_time`, `start_time`, `end_time`, `duration` of the library are never part of the oracle),
 * the duration of a nested block inside the oracle is again its span (recursively).
 
-A second evaluator that models the formula presently in the library (earliest depth-1 start, latest
-relation-leaf end) is used ONLY to name the witness class of a deviation, never for the verdict.
+A second evaluator models the formula presently in the library (since the fix commit: earliest start to
+latest end over every node of get_node_iterator(), floor 0) and reproduces the library's schedule where a
+witness class is named; a third one, built only after a deviation was found, models the FORMER formula
+(earliest depth-1 start, latest relation-leaf end) so that a regression to it is named by its witness class.
+Neither is ever used for a verdict.
 
 When are times read?  Twice per circuit: (1) as built, BEFORE the first `circuit.operations`, and (2) AFTER
 `circuit.operations` (whose side effect hands a sub-circuit's relation link down to its relation-less
@@ -20,16 +23,16 @@ memo (property C03) is never mis-attributed.  The deep (leaf-operation) clauses 
 only, because only then nested operations report times in the frame of the enclosing circuit.
 
 Failure keys (witness classes):
-  C04:duration:last-ending-op-is-not-a-leaf            the value is exactly "latest relation-leaf end - earliest depth-1 start" and a
-  C04:duration:op-starts-before-first-level-ops        block involved has a non-leaf node ending last / a node starting before depth 1
-  C04:duration:<both joined by +>
+  C04:duration:last-ending-op-is-not-a-leaf            the value is exactly "latest relation-leaf end - earliest depth-1 start" (the
+  C04:duration:op-starts-before-first-level-ops        formula before the fix) and a block involved has a non-leaf node ending last /
+  C04:duration:<both joined by +>                      a node starting before depth 1.  Fixed in the library; names a regression.
   C04:followed-by-block:<same classes>                 the follower starts before the block's span is over, for the same reason
   C04:duration:leaf-level:<cause>, C04:followed-by-block:leaf-level:<cause>
                                                        the block-level span is met but the LEAF operations (as scheduled after
                                                        circuit.operations) stick out; cause = JOINED_END link handed down to the
                                                        first operations / a nested block with an early operation / other
   C04:duration:not-the-span:<top|nested>, C04:duration:empty-block-not-zero:*, C04:followed-by-block:starts-before-block-ended,
-  C04:end_time:*, C04:DeclarativeCircuit.*             anything else (none of these occurs on the unchanged tree)
+  C04:end_time:*, C04:DeclarativeCircuit.*             anything else (none of these occurs on the present tree)
 
 See bounded/README.md for the command line and the output format.
 """
@@ -117,8 +120,11 @@ def build(program):
 class Ev:
     """own evaluator of the relation equations over the link fields under an explicit duration table.
     model "span": duration of a block = latest end - earliest start over ALL its nodes (the statement);
-    model "lib":  duration of a block = latest relation-leaf end - earliest depth-1 start, floor 0 (the formula that is
-                  presently in the library; used only to name the witness class of a deviation)."""
+    model "lib":  the formula presently in the library (since the commit "a composite's duration spans all contained operations"):
+                  running minimum of the starts and running maximum (from 0.0) of end - minimum over EVERY node of get_node_iterator(),
+                  i.e. the span, floor 0.  Used to reproduce the library's schedule when a witness class is named, never for a verdict.
+    model "old":  the formula the library had before that commit (earliest depth-1 start, latest relation-leaf end, floor 0).  Built
+                  only after a deviation was found, to recognise a regression to it and name its witness class (a) / (b)."""
 
     def __init__(self, table, model):
         self.T, self.model = table, model
@@ -146,13 +152,13 @@ class Ev:
         d1, leaves, allnodes = composite_nodes(c)
         r = {"n": len(allnodes), "d1": d1, "leaves": leaves, "all": allnodes}
         if not allnodes:
-            r.update(t0=None, lo=None, hi=None, hi_leaf=None, span=0.0, libdur=0.0, a=False, b=False)
+            r.update(t0=None, lo=None, hi=None, hi_leaf=None, span=0.0, libdur=0.0, olddur=0.0, a=False, b=False)
         else:
             t0 = min(self.start(n.operation) for n in d1)
             lo = min(self.start(n.operation) for n in allnodes)
             hi = max(self.end(n.operation) for n in allnodes)
             hi_leaf = max(self.end(n.operation) for n in leaves)
-            r.update(t0=t0, lo=lo, hi=hi, hi_leaf=hi_leaf, span=hi - lo, libdur=max(0.0, hi_leaf - t0),
+            r.update(t0=t0, lo=lo, hi=hi, hi_leaf=hi_leaf, span=hi - lo, libdur=max(0.0, hi - lo), olddur=max(0.0, hi_leaf - t0),
                      a=hi > hi_leaf + EPS, b=lo < t0 - EPS)
         self._c[k] = r
         return r
@@ -163,7 +169,7 @@ class Ev:
             return self._d[k]
         if is_composite(o):
             r = self.comp(o)
-            v = r["span"] if self.model == "span" else r["libdur"]
+            v = r[{"span": "span", "lib": "libdur", "old": "olddur"}[self.model]]
         else:
             v = self.leaf_dur(o)
         self._d[k] = v
@@ -274,8 +280,9 @@ def involved_blocks(c):
 
 
 def witness_class(el, c, reported, what_lib):
-    """name the class of a deviation: it is one of the recorded classes only if the value reported is exactly what the
-    'depth-1 start / relation-leaf end' formula gives AND that formula differs from the span because of (a) / (b) in c or below"""
+    """name the class of a deviation (el = evaluator of the FORMER formula): it is class (a) / (b) only if the value reported is exactly
+    what the 'depth-1 start / relation-leaf end' formula gives AND that formula differs from the span because of (a) / (b) in a block
+    involved.  On the present tree the library's formula is the span itself, so this names a regression to the former formula."""
     if what_lib is None or abs(reported - what_lib) > EPS:
         return None
     a = b = False
@@ -427,6 +434,12 @@ def check_case(program, gname, stats, verbose=False):
                     stats.feat["handed_down"] += 1
             common.clear_caches()
             et, el = Ev(T, "span"), Ev(T, "lib")
+            old_model = []
+
+            def eo():
+                if not old_model:
+                    old_model.append(Ev(T, "old"))
+                return old_model[0]
             comps = sub_composites(top)
             in_circuit = {id(c) for c in comps}
             allops = base.walk_all_ops(top)
@@ -456,7 +469,7 @@ def check_case(program, gname, stats, verbose=False):
                 if rl["b"]:
                     stats.feat["early_start"] += 1
                 if abs(reported - want) > EPS:
-                    cls = witness_class(el, c, reported, rl["libdur"])
+                    cls = witness_class(eo(), c, reported, eo().comp(c)["olddur"])
                     key = f"duration:{cls}" if cls else f"duration:not-the-span:{where}"
                     fail(key, "duration of a (sub-)circuit == latest end - earliest start over all operations it contains",
                          "CircuitCompositeOperation.duration",
@@ -565,9 +578,9 @@ def check_case(program, gname, stats, verbose=False):
                     if verbose:
                         say(f"  {describe(x)} FOLLOWED_BY block: starts {gap} after the block's start; the block's operations end {need} after it")
                     if gap < need - EPS:
-                        # what my model of the present formula predicts for this gap (single link: the block's duration; multi-link: the
+                        # what the model of the FORMER formula predicts for this gap (single link: the block's duration; multi-link: the
                         # latest end of the group, which a too short block duration can shift to another member)
-                        cls = witness_class(el, b, gap, el.start(x) - el.start(b))
+                        cls = witness_class(eo(), b, gap, eo().start(x) - eo().start(b))
                         key = f"followed-by-block:{cls}" if cls else "followed-by-block:starts-before-block-ended"
                         fail(key, "no contained operation starts before the block's first ones => everything FOLLOWED_BY the block starts "
                              "at or after the end of all of the block's operations", "RelationLink.get_start_time / CircuitCompositeOperation.duration",
@@ -989,8 +1002,8 @@ def main(argv=None):
                        f"operations ({ft['zero_length']} operation read-outs), followers of blocks ({ft['followed_block']}), multi-links onto blocks "
                        f"({ft['multi_link']}), circuits whose links were re-written by circuit.operations ({ft['handed_down']})",
          "ok": min(ft["non_leaf_last"], ft["early_start"], ft["zero_length"], ft["followed_block"]) > 0},
-        {"assumption": f"wherever the reported duration equals the span, it also equals my model of the formula presently in the library (depth-1 start, "
-                       f"relation-leaf end), which is used only to name witness classes ({ft['harness_oracle_vs_lib_model']} agreeing read-outs, "
+        {"assumption": f"wherever the reported duration equals the span, it also equals my model of the formula presently in the library (running "
+                       f"minimum of starts / maximum of ends over every node, floor 0), which is used only where witness classes are named ({ft['harness_oracle_vs_lib_model']} agreeing read-outs, "
                        f"{ft['lib_model_mismatch']} where the model differs)", "ok": ft["lib_model_mismatch"] == 0},
         {"assumption": "times are read with fresh start-time memos (common.clear_caches before each of the two read-outs)", "ok": True},
         {"assumption": f"links that name a block which is no longer part of the circuit (dissolved by flatten, still named by a multi-link) are not "
